@@ -42,11 +42,14 @@ pub fn input_loop(ctx: &Ctx, rep: &mut Report, exhaustive: u64, mut f: impl FnMu
     }
     let mut k: u64 = 0;
     let mut done_exhaustive = true;
+    // the enumeration may not eat the whole budget (slow builds, loaded machine): the random
+    // workloads behind it keep at least a third of it
+    let exhaustive_deadline = ctx.started + (ctx.deadline.saturating_duration_since(ctx.started)) * 2 / 3;
     while idx < exhaustive {
         if ctx.fine_journal || k % 1024 == 0 {
             ctx.journal(idx);
             ctx.checkpoint(rep);
-            if k % 1024 == 0 && ctx.expired() && !ctx.fine_journal {
+            if k % 1024 == 0 && std::time::Instant::now() >= exhaustive_deadline && !ctx.fine_journal {
                 done_exhaustive = false;
                 break;
             }
